@@ -584,18 +584,24 @@ pub fn run_c14(ctx: &Ctx, st: &mut Local) {
         e.exhaustive = !capped;
     }
 
-    // (4) free-running stress (sampling; supplementary)
+    // (4) free-running stress (sampling; supplementary): all workers start the same call at the
+    // same moment (barrier) so that executions of the same code overlap as much as possible
     let name = "stress(sampled)";
-    if ctx.engine_on(name) && ctx.sel.only_engine.is_none() {
-        let iters = if ctx.quick() { 6 } else { 40 };
+    if ctx.engine_on(name) && ctx.sel.only_engine.is_none() && ctx.sel.nshards == ctx.nthreads as u64 {
+        static BARRIER: std::sync::OnceLock<std::sync::Barrier> = std::sync::OnceLock::new();
+        let barrier = BARRIER.get_or_init(|| std::sync::Barrier::new(ctx.nthreads));
+        let rounds = if ctx.quick() { 8 } else { 60 };
         let mut bad = 0;
-        for it in 0..iters {
-            for id in 0..NCALLS {
-                if (id == 8 || id == 9) && it % 3 != 0 {
+        let own = Inputs { blobs: inp.blobs.clone() };
+        for r in 0..rounds {
+            for id in 0..=NCALLS {
+                if (id == 8 || id == 9) && r % 4 != 0 {
                     continue;
                 }
-                let d = call(s, (id + ctx.thread) % NCALLS, &inp);
-                if d != seq[(id + ctx.thread) % NCALLS] {
+                barrier.wait();
+                // odd rounds: every thread uses its private copy of the inputs
+                let d = call(s, id, if r % 2 == 0 { &inp } else { &own });
+                if d != seq[id] {
                     bad += 1;
                 }
                 st.eng(name).traces += 1;
@@ -605,7 +611,7 @@ pub fn run_c14(ctx: &Ctx, st: &mut Local) {
         e.states += 1;
         e.transitions += 1;
         e.nontrivial += 1;
-        e.bound = format!("all worker threads call the 10 functions concurrently, {} rounds, shared inputs, compared with the sequential digests (free-running: a sample of interleavings, labelled as such)", iters);
+        e.bound = format!("all {} worker threads start each of the 11 calls simultaneously (barrier), {} rounds, alternating private and identical inputs, compared with the sequential digests (free-running: a sample of interleavings, labelled as such)", ctx.nthreads, rounds);
         e.exhaustive = true;
         if bad > 0 {
             st.violation(ctx.viol(name, ctx.thread as u64, "concurrent-result-differs", None, format!("{} concurrent calls returned a result different from the sequential one", bad), &[]));
